@@ -61,6 +61,7 @@ def build_tree(env, base, steps, files=None):
         if p.returncode != 0 or bad:
             raise TraceError('setup steps failed: %s %s' % (bad, p.stderr.decode()[-500:]))
     for name, content in (files or {}).items():
+        os.makedirs(os.path.dirname(os.path.join(base, name)), exist_ok=True)
         with open(os.path.join(base, name), 'wb') as f:
             f.write(content)
 
@@ -108,6 +109,15 @@ def c08(env, thorough):
         ('update-bigaux', STD_SETUP, {}, {'op': 'update', 'user': 'b', 'pw': 'newpw'}, 'b.user', (b'x' * 1023 + b'\n') * (big // 1024)),
         ('update-aux-nonl', STD_SETUP, {}, {'op': 'update', 'user': 'b', 'pw': 'newpw'}, 'b.user', b'line1\nno newline at end'),
         ('update-admin-otherdefault', STD_SETUP, {}, {'op': 'update', 'user': 'root', 'pw': 'newpw', 'default': 2}, 'root.admin', b'aux\n'),
+    ]
+    # the permitted residue of an earlier crash - leftover temporary files in the work area, also under
+    # names derived from the user - must not influence a later operation
+    stale = b'argon2id:1600000000:1:c3RhbGVzYWx0c3RhbGU=:' + b'U1RBTEU' * 300 + b'\nstale aux line 1\nstale aux line 2\n'
+    leftovers = {'.tmp/' + n: stale for n in ('a', 'b', 'a.user', 'b.user', 'a.admin', 'root', 'root.admin', '000000', 'whawty-auth-')}
+    histories += [
+        ('add-with-leftovers', STD_SETUP, leftovers, {'op': 'add', 'user': 'a', 'pw': 'newpw'}, 'a.user', None),
+        ('update-with-leftovers', STD_SETUP, leftovers, {'op': 'update', 'user': 'b', 'pw': 'newpw'}, 'b.user', b'aux\n'),
+        ('update-admin-with-leftovers', STD_SETUP, leftovers, {'op': 'update', 'user': 'root', 'pw': 'newpw'}, 'root.admin', b''),
     ]
     # auxiliary data around the usual buffer sizes (a record that just fits / just exceeds a 4 KiB or 64 KiB buffer)
     sizes = [4000, 4023, 4024, 4025, 4096, 8192] + ([32768, 65535, 65536, 65537] if thorough else [])
@@ -568,14 +578,60 @@ def c15_faults(env, thorough):
                                   '%s reported failure (%s) after %s #%d of the operation failed with %s, but the store changed outside the work area: %s'
                                   % (opname, rep.get('err'), name, inwin + 1, errno, diff),
                                   {'op': step, 'inject': '%s:error=%s:when=%d' % (name, errno, nth), 'occurrence_in_op': inwin + 1, 'diff': diff})
+                if rep['ok']:
+                    # the operation reports success although one of its system calls failed: then its effect
+                    # must be the complete effect (target changed as the operation prescribes, the target's
+                    # auxiliary data and every other file byte-identical)
+                    prob = _c15_success_effect(opname, step, pre, after)
+                    if prob:
+                        env.violation('success-with-wrong-effect:%s:%s' % (opname, name),
+                                      '%s reported success after %s #%d of the operation failed with %s, but %s' % (opname, name, inwin + 1, errno, prob),
+                                      {'op': step, 'inject': '%s:error=%s:when=%d' % (name, errno, nth), 'occurrence_in_op': inwin + 1})
                 if rep.get('err', '').startswith('PANIC'):
                     env.violation('panic-under-fault:%s:%s' % (opname, name), '%s panicked when %s failed with %s: %s' % (opname, name, errno, rep['err']),
                                   {'op': step, 'inject': '%s:error=%s:when=%d' % (name, errno, nth)})
     env.cov['fault_runs'] = nruns
     return env.evidence(
         'for each of init, add, update, set-admin, remove: EVERY occurrence of every file-system system call inside the operation (openat, mkdirat, write, read, copy_file_range, fsync, renameat, unlinkat, newfstatat, close, getdents64) x each applicable errno of {ENOSPC, EIO, EACCES, EMFILE}, one fault per run (strace inject, position verified to lie inside the operation window); '
-        'oracle: an operation that reports failure leaves everything outside the work area byte-identical; distinct = distinct (operation, syscall, errno, reported result, changed?)',
+        'oracle: an operation that reports failure leaves everything outside the work area byte-identical, one that reports success nevertheless has its complete effect (auxiliary data and all other files byte-identical); distinct = distinct (operation, syscall, errno, reported result, changed?)',
         ['single fault per run', 'fault positions are computed from a baseline trace of the identical deterministic driver and verified after each run'])
+
+
+def _c15_success_effect(opname, step, pre, after):
+    """pre/after: user files {name: bytes}.  Returns a description of what is wrong, or None."""
+    u = step['user']
+    tnames = (u + '.user', u + '.admin')
+    for fn in set(pre) | set(after):
+        if fn not in tnames and pre.get(fn) != after.get(fn):
+            return 'file %s of another user changed' % fn
+    old = [(fn, pre[fn]) for fn in tnames if fn in pre]
+    new = [(fn, after[fn]) for fn in tnames if fn in after]
+    if opname == 'remove':
+        # (a removal that reports success without having removed anything - RemoveUser has no result,
+        # see finding F3 - changes nothing, which is all this property asks of it)
+        return None
+    if len(new) != 1:
+        return 'the user has %d record files afterwards' % len(new)
+    nfn, ndata = new[0]
+    nline, _, nrest = ndata.partition(b'\n')
+    if len(nline.split(b':')) != 5:
+        return 'the record line is malformed: %r' % nline[:40]
+    if opname in ('init', 'add'):
+        return None if nrest == b'' else '%d unexpected bytes follow the record line' % len(nrest)
+    if len(old) != 1:
+        return None
+    ofn, odata = old[0]
+    oline, _, orest = odata.partition(b'\n')
+    if opname == 'update':
+        if nrest != orest:
+            return 'the auxiliary data changed: %d bytes before, %d after' % (len(orest), len(nrest))
+        if nline == oline or nfn != ofn:
+            return 'the record line was not replaced in place'
+    if opname == 'setadmin':
+        want = u + ('.admin' if step.get('admin') else '.user')
+        if nfn != want or ndata != odata:
+            return 'set-admin did not carry the whole record over to %s' % want
+    return None
 
 
 def c15_readonly(env, thorough):
